@@ -1003,12 +1003,175 @@ class Lits(Base):
         return And(cs)
 
 
+class CastleWall(Base):
+    module, fn = "castle_wall", "solve_castle_wall"
+
+    def instances(self, tier, rng):
+        out = []
+        for (h, w) in shapes(6 if tier == "quick" else 9, min_side=2):
+            for k in range(10 if tier == "quick" else 40):
+                arrow = [[".."] * w for _ in range(h)]
+                inside = [[None] * w for _ in range(h)]
+                for _ in range(rng.randint(1, 2)):
+                    y, x = rng.randrange(h), rng.randrange(w)
+                    arrow[y][x] = rng.choice(["??"] + [dch + str(n) for dch in "^v<>" for n in (0, 1, 2)])
+                    inside[y][x] = rng.choice([True, False, None])
+                out.append({"tag": "%dx%d/r%d" % (h, w, k), "h": h, "w": w, "arrow": arrow, "inside": inside})
+            # systematic: one clue, every corner, every direction
+            for (y, x) in ((0, 0), (h - 1, w - 1), (0, w - 1), (h - 1, 0)):
+                for dch in "^v<>":
+                    for n in (0, 1):
+                        for ins in (True, False):
+                            arrow = [[".."] * w for _ in range(h)]
+                            inside = [[None] * w for _ in range(h)]
+                            arrow[y][x] = dch + str(n)
+                            inside[y][x] = ins
+                            out.append({"tag": "%dx%d/at%d,%d%s%d%s" % (h, w, y, x, dch, n, "i" if ins else "o"), "h": h, "w": w,
+                                        "arrow": arrow, "inside": inside})
+        return out
+
+    def call(self, mod, d):
+        return mod.solve_castle_wall(d["h"], d["w"], d["arrow"], d["inside"])
+
+    def rule(self, d, ret, env):
+        h, w = d["h"], d["w"]
+        lp = Loop(ret[1], env, h, w)
+        cs = [lp.single_loop()]
+        for y in range(h):
+            for x in range(w):
+                a = d["arrow"][y][x]
+                if a == "..":
+                    continue
+                cs.append(z3.Not(lp.visited(y, x)))
+                if a[0] in "^v<>":
+                    n = int(a[1:])
+                    segs = {"^": [lp.V(yy, x) for yy in range(0, y)], "v": [lp.V(yy, x) for yy in range(y, h - 1)],
+                            "<": [lp.H(y, xx) for xx in range(0, x)], ">": [lp.H(y, xx) for xx in range(x, w - 1)]}[a[0]]
+                    cs.append(count(segs) == n)
+                ins = d["inside"][y][x]
+                if ins is not None:
+                    # the clue cell is off the loop; walk half a cell sideways (no line crossed) and shoot a ray upwards:
+                    # it crosses the horizontal segments of that column of segments strictly above
+                    xs = x if x < w - 1 else x - 1
+                    crossings = count(lp.H(yy, xs) for yy in range(0, y))
+                    cs.append((crossings % 2 == 1) if ins else (crossings % 2 == 0))
+        return And(cs)
+
+
+class View(Base):
+    module, fn = "view", "solve_view"
+
+    def instances(self, tier, rng):
+        out = []
+        for (h, w) in shapes(4 if tier == "quick" else 6):
+            out.append({"tag": "%dx%d/none" % (h, w), "h": h, "w": w, "problem": [[-1] * w for _ in range(h)]})
+            for k in range(8 if tier == "quick" else 30):
+                p = rand_layout(rng, h, w, [0, 0, 1, 1, 2, 3], rng.choice([0.2, 0.5]))
+                out.append({"tag": "%dx%d/r%d" % (h, w, k), "h": h, "w": w, "problem": [[-1 if v is None else v for v in row] for row in p]})
+        return out
+
+    def call(self, mod, d):
+        return mod.solve_view(d["h"], d["w"], d["problem"])
+
+    def answers(self, ret):
+        return arr_vars(ret[1]) + arr_vars(ret[2])
+
+    def rule(self, d, ret, env):
+        h, w = d["h"], d["w"]
+        num = Grid(ret[1], env, h, w)
+        has = Grid(ret[2], env, h, w)
+        cs = [spec.connected(h * w, grid_edges(h, w), has.flat())]
+        for y in range(h):
+            for x in range(w):
+                seen = []
+                for dy, dx in ((-1, 0), (1, 0), (0, -1), (0, 1)):
+                    ray, yy, xx = [], y + dy, x + dx
+                    while has.inside(yy, xx):
+                        ray.append((yy, xx))
+                        # cell k of the ray is visible iff it and all cells before it carry no number
+                        seen.append(And(z3.Not(has(*q)) for q in ray))
+                        yy, xx = yy + dy, xx + dx
+                cs.append(z3.Implies(has(y, x), num(y, x) == count(seen)))
+                cs.append(z3.Implies(z3.Not(has(y, x)), num(y, x) == 0))
+                for (yy, xx) in ((y + 1, x), (y, x + 1)):
+                    if has.inside(yy, xx):
+                        cs.append(z3.Implies(z3.And(has(y, x), has(yy, xx)), num(y, x) != num(yy, xx)))
+                c = d["problem"][y][x]
+                if c >= 0:
+                    cs.append(has(y, x))
+                    cs.append(num(y, x) == c)
+        return And(cs)
+
+
+class Fivecells(Base):
+    module, fn = "fivecells", "solve_fivecells"
+
+    def instances(self, tier, rng):
+        out = []
+        boards = [(1, 5, []), (5, 1, []), (2, 5, []), (5, 2, []), (2, 3, [(0, 0)]), (2, 3, [(1, 1)]), (3, 2, [(2, 1)]), (3, 4, [(0, 0), (2, 3)]),
+                  (3, 3, [(0, 0), (0, 2), (2, 0), (2, 2)]), (2, 3, [])]
+        if tier == "thorough":
+            boards += [(3, 5, []), (3, 4, [(1, 1), (1, 2)]), (4, 3, [(0, 0), (3, 2)])]
+        for (h, w, holes) in boards:
+            for k in range(6 if tier == "quick" else 20):
+                p = [[-1] * w for _ in range(h)]
+                for (y, x) in holes:
+                    p[y][x] = -2
+                for _ in range(rng.randint(0, 2)):
+                    y, x = rng.randrange(h), rng.randrange(w)
+                    if p[y][x] == -1:
+                        p[y][x] = rng.choice([0, 1, 2, 2, 3, 3, 4])
+                out.append({"tag": "%dx%d-%dholes/r%d" % (h, w, len(holes), k), "h": h, "w": w, "problem": p})
+        return out
+
+    def call(self, mod, d):
+        return mod.solve_fivecells(d["h"], d["w"], d["problem"])
+
+    def rule(self, d, ret, env):
+        h, w = d["h"], d["w"]
+        p = d["problem"]
+        exists = lambda y, x: 0 <= y < h and 0 <= x < w and p[y][x] >= -1   # noqa: E731
+        vid, n = {}, 0
+        for y in range(h):
+            for x in range(w):
+                if exists(y, x):
+                    vid[(y, x)] = n
+                    n += 1
+        # the answer lists one flag per pair of existing neighbours, in the order: for each cell (row-major) its lower then its
+        # right neighbour (the order in which the module's docstring-less return value is built is part of what is compared:
+        # a different order would show as a disagreement)
+        edges = []
+        for y in range(h):
+            for x in range(w):
+                if exists(y, x):
+                    if exists(y + 1, x):
+                        edges.append((vid[(y, x)], vid[(y + 1, x)]))
+                    if exists(y, x + 1):
+                        edges.append((vid[(y, x)], vid[(y, x + 1)]))
+        flags = [env.z(v) for v in arr_vars(ret[1])]
+        if len(flags) != len(edges):
+            return F
+        cs = [spec.borders_spec(n, edges, flags, [z3.IntVal(5)] * n)]
+        for y in range(h):
+            for x in range(w):
+                if exists(y, x) and p[y][x] >= 0:
+                    around, fixed = [], 0
+                    for (yy, xx) in ((y - 1, x), (y + 1, x), (y, x - 1), (y, x + 1)):
+                        if exists(yy, xx):
+                            a, b = vid[(y, x)], vid[(yy, xx)]
+                            k = edges.index((min(a, b), max(a, b))) if (min(a, b), max(a, b)) in edges else edges.index((max(a, b), min(a, b)))
+                            around.append(flags[k])
+                        else:
+                            fixed += 1
+                    cs.append(count(around) + fixed == p[y][x])
+        return And(cs)
+
+
 ALL = [Sudoku(), Slitherlink(), Masyu(), Yajilin(), Nurikabe(), Heyawake(), Akari(), Norinori(), StarBattle(), Fillomino(), Nurimisaki(),
-       Yinyang(), Creek(), Gokigen(), Aquarium(), Building(), Doppelblock(), Putteria(), Geradeweg(), Compass(), Lits()]
+       Yinyang(), Creek(), Gokigen(), Aquarium(), Building(), Doppelblock(), Putteria(), Geradeweg(), Compass(), Lits(), CastleWall(), View(), Fivecells()]
 BY_NAME = {s.module: s for s in ALL}
 NOT_COVERED = {
     "simpleloop": "its `pivot` parameter is a generator device with no published rule",
-    "fivecells": "no rule specification written", "view": "no rule specification written", "castle_wall": "no rule specification written",
     "shakashaka": "no rule specification written",
 }
 
